@@ -86,7 +86,7 @@ func loaderScenarios() []scenario {
 	wide["root.knut"] = rootInc.String() + root
 	ss = append(ss, scenario{Name: "load-wide-141-files-print", Files: wide, Args: []string{"print", "root.knut"}, Census: wideCensus})
 	// a file reached over two paths four levels down (q includes x and p, x includes p too):
-	// not a cycle, p is simply loaded twice; and a file that includes itself twice (two
+	// not a cycle (p is part of the journal once); and a file that includes itself twice (two
 	// goroutines report the cycle at the same time)
 	deep := map[string]string{
 		"root.knut": "include \"y.knut\"\n" + root, "y.knut": "include \"q.knut\"\n" + a,
